@@ -153,25 +153,25 @@ def processMods (s : Sys α) (dt : α) : Option (List (Nat × ModTweener α)) :=
     (fun m view => some (m.update dt (infoOf (fun id => s.clocks.lookup id) view))) [] s.mods
 
 /-- mirrors: backend/resources/clocks.rs::Clocks::update (modulators already processed) -/
-def updateClocks (fuel : Nat) (s : Sys α) (mods : List (Nat × ModTweener α)) (dt : α) :
+def updateClocks (s : Sys α) (mods : List (Nat × ModTweener α)) (dt : α) :
     Option (List (Nat × Clock α)) :=
   forEachSelfRef Clock.dummy
-    (fun c view => (c.update fuel dt (infoOf view (fun id => mods.lookup id))).map (·.1)) [] s.clocks
+    (fun c view => some (c.update dt (infoOf view (fun id => mods.lookup id))).1) [] s.clocks
 
 /-- mirrors: backend/renderer.rs::Renderer::process_chunk: modulators, then clocks, then the mixer
     pass (`dt` is the chunk's duration `self.dt * num_frames`) -/
-def chunk (fuel : Nat) (s : Sys α) (dt : α) : Option (Sys α) :=
+def chunk (s : Sys α) (dt : α) : Option (Sys α) :=
   match s.processMods dt with
   | none => none
   | some mods =>
-    match s.updateClocks fuel mods dt with
+    match s.updateClocks mods dt with
     | none => none
     | some clocks =>
       let s1 := { s with mods := mods, clocks := clocks }
       some { s1 with waiters := s1.waiters.map (fun w => w.process dt s1.mixInfo) }
 
-/-- one event (`none` = a clock's tick loop did not terminate) -/
-def step (fuel : Nat) (s : Sys α) : Ev α → Option (Sys α)
+/-- one event (never `none`: `Sys.step_total` — the `Option` is `forEachSelfRef`'s) -/
+def step (s : Sys α) : Ev α → Option (Sys α)
   | .addClock speed =>
     some { s with newClocks := s.newClocks ++ [(s.nextId, Clock.new speed)], nextId := s.nextId + 1 }
   | .addTweener v =>
@@ -187,15 +187,15 @@ def step (fuel : Nat) (s : Sys α) : Ev α → Option (Sys α)
                   newMods := mapKey id (fun m => { m with removed := true }) s.newMods }
   | .play st => some { s with newWaiters := s.newWaiters ++ [⟨st, false, false⟩] }
   | .startProcessing => some s.startProcessing
-  | .chunk dt => s.chunk fuel dt
+  | .chunk dt => s.chunk dt
 
 /-- a whole history -/
-def run (fuel : Nat) (s : Sys α) : List (Ev α) → Option (Sys α)
+def run (s : Sys α) : List (Ev α) → Option (Sys α)
   | [] => some s
   | e :: rest =>
-    match s.step fuel e with
+    match s.step e with
     | none => none
-    | some s' => run fuel s' rest
+    | some s' => run s' rest
 
 end Sys
 end K
